@@ -406,6 +406,7 @@ func (c *Ctx) geRun() []*geVerdict {
 					continue
 				}
 				show := "‹" + it.expr + "›"
+				noteSample("GRAM.eval/"+it.fam, show)
 				for _, inTrue := range []bool{true, false} {
 					if !strings.Contains(it.expr, " IN ") && !inTrue {
 						continue
